@@ -81,6 +81,9 @@ class Outcome:
         self.known_hits = {}
         self.t0 = time.time()
         self.notes = []
+        import glob
+        for f in glob.glob(os.path.join(WORK, 'replays', '%s_*.json' % prop)):
+            os.unlink(f)
 
     def violation(self, clause, sigclass, detail, replay_obj=None):
         """sigclass: coarse scenario class used for known-finding matching (driver supplied)."""
